@@ -140,5 +140,28 @@ CLAIMS = {
         "technique": "Coq model with generated class table + extracted Bundesbank spec as oracle + correspondence; per-method symbolic equivalence proofs where listed",
         "design_ref": "DESIGN.md §4 C07",
     },
+    "C08": {
+        "text": "The model of BBAN.from_components / IBAN.generate follows the code line by line (clean, sign-aware zfill, "
+                "combined split with the duplicate-branch guard, three length guards, structure check per component, national "
+                "compute, placement loop in Component order, final clean) and is tied by correspondence on exact/short/long/"
+                "combined/odd-character components for every country. The property itself is checked on the implementation by an "
+                "oracle written against the translated table (ISO validity of the result, each supplied component cleaned and "
+                "zero-padded at its published range, no drop/truncation/alteration, library errors only, own class for an over-long "
+                "component). Theorems: see evidence obligation_names (partial: placement theorem pending). Found and fixed: "
+                "silently dropped branch code (fa6d1f2), out-of-class characters escaping as ValueError/KeyError (4d4423d).",
+        "note": COMMON_NOTE + " The C08 oracle (tools/impl_runner.py f_spec_generate) is Python written against Gen/facts.json, not an extracted Coq spec.",
+        "technique": "Coq model + correspondence + table-driven property oracle; theorems partial",
+        "design_ref": "DESIGN.md §4 C08",
+    },
+    "C09": {
+        "text": "For the 19 countries with computed national digits: IBAN.generate followed by validate(validate_bban=True) on "
+                "component combinations of every width; for every country with positions: nationally valid IBANs (accept side "
+                "chosen by the extracted published-rule spec) are decomposed through the accessors and rebuilt with "
+                "BBAN.from_components, which must reproduce the BBAN at every position covered by a component; model/implementation "
+                "correspondence on generate and on the decomposition. Theorems: see evidence obligation_names (partial).",
+        "note": COMMON_NOTE,
+        "technique": "Coq model + correspondence + spec-selected inputs; theorems partial",
+        "design_ref": "DESIGN.md §4 C09",
+    },
 }
 NOT_APPLICABLE = {}
